@@ -82,7 +82,7 @@ def st_schedule(draw):
 
 class Fanout(Sub):
     name = "fanout"
-    examples = {"quick": 1200, "thorough": 50000}
+    examples = {"quick": 1200, "thorough": 9600}
     shards = {"quick": 16, "thorough": 16}
     rule = RULE
 
@@ -305,7 +305,7 @@ class WriterWindow(Sub):
     """LMDB: a duplicate arriving while the writer thread is INSIDE the write transaction of the first copy"""
 
     name = "writer-window"
-    examples = {"quick": 200, "thorough": 4000}
+    examples = {"quick": 200, "thorough": 1600}
     shards = {"quick": 4, "thorough": 8}
     rule = ("LMDB with the writer's run() on a real thread that the harness gates at the k-th index mutation of the "
             "first copy's transaction; the same event is resubmitted on another connection inside that window; "
